@@ -94,13 +94,15 @@ func NewPREF64(prefix netip.Prefix, maxInterval time.Duration) *PREF64 {
 	// Calculate the scaled lifetime using MaxRtrAdvInterval.
 	// See https://datatracker.ietf.org/doc/html/rfc8781#section-4.1-2
 	lifetime := maxPref64Lifetime
-	if int(maxInterval.Seconds())*3 < int(lifetime.Seconds()) {
-		lifetimeSeconds := int(maxInterval.Seconds()) * 3
-		if r := int(lifetimeSeconds) % 8; r > 0 {
-			lifetimeSeconds += 8 - r
+	if scaled := 3 * maxInterval; scaled < lifetime {
+		// Round up to a multiple of 8 seconds. Note that maxInterval may
+		// have a fractional number of seconds.
+		const unit = 8 * time.Second
+		if r := scaled % unit; r > 0 {
+			scaled += unit - r
 		}
 
-		lifetime = time.Duration(lifetimeSeconds) * time.Second
+		lifetime = scaled
 	}
 
 	return &PREF64{
